@@ -353,8 +353,10 @@ def retained_boundaries(chk, w):
                 continue
             o = du.origin(tm.discr)
             txt = defuse.show(o)
+            # (comparison functions are left out of the key: `h > min` and `!(h <= min)` are the same guard)
             names = sorted(set(re.findall(r"\b([a-z_][a-z_0-9]*)\(", txt)) - {"branch", "map_err", "expect", "next",
-                                                                              "into_iter", "store", "deref"})
+                                                                              "into_iter", "store", "deref", "gt", "ge",
+                                                                              "lt", "le", "eq", "ne", "cmp"})
             state = [x for x in names if re.search(r"checkpoint|store|prun|min_|max_", x)]
             policy = "retains" in names or "should_retain_anchor" in names
             if state and not policy:
